@@ -8,9 +8,12 @@ import (
 	"context"
 	"fmt"
 	"sort"
+	"time"
 
 	"github.com/grailbio/base/errors"
 	"github.com/grailbio/base/sync/ctxsync"
+	"github.com/grailbio/bigmachine"
+	"github.com/grailbio/bigmachine/testsystem"
 	"github.com/grailbio/bigslice"
 	"github.com/grailbio/bigslice/stats"
 )
@@ -202,3 +205,69 @@ func VerifC16RefIndex(v interface{}) (uint64, bool) {
 	ref, ok := v.(invocationRef)
 	return ref.Index, ok
 }
+
+// VerifC16Machine is a machine of an in-process test system, started through
+// the real startMachines (so its worker is fresh: it has compiled nothing, and
+// its Func registry went through the FuncLocations check).
+type VerifC16Machine struct {
+	m   *sliceMachine
+	sys *testsystem.System
+}
+
+// FreshMachine attaches the world's executor to a new in-process bigmachine
+// test system and starts one machine with the executor's worker service.
+func (x *VerifC16World) FreshMachine() (*VerifC16Machine, error) {
+	sys := testsystem.New()
+	x.b.system = sys
+	x.b.b = bigmachine.Start(sys)
+	if x.b.sess == nil {
+		x.b.sess = &Session{} // compile only uses sess.tracer, which may be nil
+	}
+	if x.b.worker == nil {
+		x.b.worker = &worker{}
+	}
+	ctx, cancel := context.WithTimeout(context.Background(), 60*time.Second)
+	defer cancel()
+	ms := startMachines(ctx, x.b.b, nil, 1, 1, x.b.worker)
+	if len(ms) != 1 {
+		x.b.b.Shutdown()
+		return nil, fmt.Errorf("startMachines returned %d machines", len(ms))
+	}
+	return &VerifC16Machine{m: ms[0], sys: sys}, nil
+}
+
+// ShutdownMachine kills the machine and shuts its system down.
+func (x *VerifC16World) ShutdownMachine(m *VerifC16Machine) {
+	m.sys.Kill(m.m.Machine)
+	x.b.b.Shutdown() // shuts the system down as well
+}
+
+// CompileOn calls the real (*bigmachineExecutor).compile: the executor walks
+// its invocationDeps from invocation index and sends every invocation it
+// finds to the machine through Worker.Compile RPCs, dependencies first.
+func (x *VerifC16World) CompileOn(m *VerifC16Machine, index uint64) (fatal bool, err error) {
+	defer func() {
+		if e := recover(); e != nil {
+			err = fmt.Errorf("panic: %v", e)
+		}
+	}()
+	ctx, cancel := context.WithTimeout(context.Background(), 60*time.Second)
+	defer cancel()
+	err = x.b.compile(ctx, m.m, index)
+	return err != nil && errors.Match(fatalErr, err), err
+}
+
+// Deps returns the sorted dependency set addInvocation recorded for index.
+func (x *VerifC16World) Deps(index uint64) []uint64 {
+	x.b.mu.Lock()
+	defer x.b.mu.Unlock()
+	var ds []uint64
+	for d := range x.b.invocationDeps[index] {
+		ds = append(ds, d)
+	}
+	sort.Slice(ds, func(i, j int) bool { return ds[i] < ds[j] })
+	return ds
+}
+
+// VerifC16ResultSlice returns the slice a *Result wraps.
+func VerifC16ResultSlice(r *Result) bigslice.Slice { return r.Slice }
